@@ -50,7 +50,7 @@ def replay(path):
     open(f, "w").write(K4)
     p = subprocess.run([b[h], "--replay-case", rp["case"], "--file", f], stdout=subprocess.PIPE, stderr=subprocess.STDOUT, text=True)
     print(p.stdout[-3000:])
-    if "REPLAY-VIOLATION" in p.stdout:
+    if "REPLAY-VIOLATION" in p.stdout or p.returncode < 0:      # a replay that dies on a signal reproduces a crash
         print("VIOLATION property=C20 replay=%s" % path)
         return 1
     return 0
